@@ -276,9 +276,37 @@ pub fn property() -> Property {
         rule: "cfg: ordered list of 0..8 distinct category names each with 0..8 (key, value) lines (keys repeat within and across categories, empty keys/values allowed) over printable ASCII + some UTF-8 minus < > TAB CR LF NUL; canonical text '\\r\\n<cat>\\r\\n' + 'key\\tvalue\\r\\n'... + NUL produced by the harness; checks: parse(canonical) = model in order; write(parse(canonical)) = canonical bytes; writing a directly constructed value = canonical; set_value histories of 0..8 calls (present, absent, duplicated keys) compared with the model after every call; has_key / has_category agree with the content; the edited file writes canonically and re-parses. exl: version i32, 0..30 (name, i32) rows, optional '#' comment rows and CRLF line ends on the input side; parse/write/parse and contains. The checked-in FFXIV.cfg and test.exl must round-trip byte for byte. Non-trivial: cfg with >= 2 categories, an empty one, a duplicated key and >= 1 effective set_value; exl with >= 2 entries. Distinct by content hash.",
         assumptions: &["category names are distinct; names and values avoid the structural characters", "EXL names do not start with '#', are not 'EXLT' and contain no comma"],
         pre: Some(pre),
+        post: None,
         parts: vec![
             Box::new(Part { name: "cfg", driver: Driver::Gen(cfg_strategy, 6_000, 120_000), prop: prop_cfg, exhaustive: false }),
             Box::new(Part { name: "exl", driver: Driver::Gen(exl_strategy, 6_000, 120_000), prop: prop_exl, exhaustive: false }),
         ],
     }
+}
+
+pub fn seed_files(ctx: &Ctx, n: usize) -> (Vec<(String, Vec<u8>)>, Vec<(String, Vec<u8>)>) {
+    let mut cfgs = vec![];
+    let mut exls = vec![];
+    if let Ok(b) = std::fs::read(util::repo_root().join("resources/tests/FFXIV.cfg")) {
+        cfgs.push(("fixture".to_string(), b));
+    }
+    if let Ok(b) = std::fs::read(util::repo_root().join("resources/tests/test.exl")) {
+        exls.push(("fixture".to_string(), b));
+    }
+    let cs = cfg_strategy(ctx);
+    let es = exl_strategy(ctx);
+    for k in 0..n as u64 {
+        let c = draw_fixed(&cs, 0xC08_5EED + k);
+        cfgs.push((format!("gen{}", k), canonical_cfg(&c.categories)));
+        let e = draw_fixed(&es, 0xC08_E5ED + k);
+        let mut canon = format!("EXLT,{}", e.version);
+        for (nm, id) in &e.entries {
+            canon.push_str(&format!("{}{},{}", if e.crlf { "\r\n" } else { "\n" }, nm, id));
+        }
+        for (_, t) in &e.comments {
+            canon.push_str(&format!("\n#{},1", t));
+        }
+        exls.push((format!("gen{}", k), canon.into_bytes()));
+    }
+    (cfgs, exls)
 }
